@@ -11,5 +11,7 @@ CONSTANTS
   AllowEnd = FALSE
   MaxRequery = 0
   FixCommitState = TRUE
+  SeqSMP = FALSE
+  FixSMPReset = FALSE
 INVARIANTS EmitAll
 CHECK_DEADLOCK FALSE
